@@ -22,6 +22,9 @@ type c19Input struct {
 	UseDir bool     `json:"usedir,omitempty"`
 	Script []c19Out `json:"script,omitempty"`
 	Ops    []c19Op  `json:"ops,omitempty"`
+	// conc (uses T0, UseDir, Script)
+	Readers int `json:"readers,omitempty"`
+	Readys  int `json:"readys,omitempty"`
 }
 
 func c19Run(ctx *core.Ctx, in c19Input) error {
@@ -30,6 +33,11 @@ func c19Run(ctx *core.Ctx, in c19Input) error {
 		c19RunReady(ctx, in)
 	case "rot":
 		c19RunRot(ctx, in)
+	case "conc":
+		if len(in.Script) == 0 || !in.Script[0].Ok {
+			return fmt.Errorf("conc: the script must start with a successful fetch")
+		}
+		c19RunConc(ctx, in)
 	default:
 		return fmt.Errorf("unknown kind %q", in.Kind)
 	}
@@ -318,6 +326,39 @@ func genRot(ctx *core.Ctx, r *hx.Rand) {
 	c19RunRot(ctx, in)
 }
 
+// readers racing with renewals: long scripts that keep the loop renewing (certificates already
+// past half-life renew back to back; some reach half-life only after one or two wake-ups; some
+// requests fail and are retried 10 s later), 1..12 goroutines looping on GetX509SVID, 0..2 on Ready.
+func genConc(ctx *core.Ctx, r *hx.Rand) {
+	in := c19Input{Kind: "conc", UseDir: r.Chance(1, 4)}
+	in.T0 = 1_650_000_000*sec + int64(r.Intn(250_000_000))*sec + int64(r.Intn(int(sec)))
+	n := r.Range(60, 220)
+	if in.UseDir {
+		n = r.Range(30, 80)
+	}
+	failEvery := []int{0, 0, 7, 23}[r.Intn(4)]
+	for i := 0; i < n; i++ {
+		var o c19Out
+		w := rotWindows[r.Intn(9)] // 2 s .. 3 h
+		switch x := r.Intn(20); {
+		case i > 0 && failEvery > 0 && r.Intn(failEvery) == 0:
+			o = c19Out{Fail: []string{"err", "empty", "noid"}[r.Intn(3)]}
+		case x < 16 || i == 0 && x < 19:
+			dnb := -(w/2 + int64(r.Intn(int(w/2+1)))) // already past half-life: renew at once
+			o = c19Out{Ok: true, Dnb: dnb, Dna: dnb + w}
+		case x < 19:
+			h := int64(r.Range(1, 100)) * sec // half-life 1..100 s ahead: one or two wake-ups first
+			o = c19Out{Ok: true, Dnb: h - w/2, Dna: h + w/2}
+		default:
+			o = c19Out{Ok: true, Dnb: -w / 2, Dna: w - w/2} // exactly at half-life
+		}
+		in.Script = append(in.Script, o)
+	}
+	in.Readers = []int{1, 2, 3, 4, 6, 8, 12}[r.Intn(7)]
+	in.Readys = r.Intn(3)
+	c19RunConc(ctx, in)
+}
+
 func c19Gen(ctx *core.Ctx) {
 	genReadyExhaustive(ctx)
 	nReady, nRot := 120, 300
@@ -329,6 +370,13 @@ func c19Gen(ctx *core.Ctx) {
 	}
 	for i := 0; i < nRot; i++ {
 		genRot(ctx, ctx.R.Fork())
+	}
+	nConc := 16
+	if ctx.Thorough {
+		nConc = 250
+	}
+	for i := 0; i < nConc; i++ {
+		genConc(ctx, ctx.R.Fork())
 	}
 }
 
